@@ -14,6 +14,7 @@ pub use crate::packet::{
     AesSivCmac256, AesSivCmac512, Cipher, CipherHolder, CipherProvider, DecryptError,
     ExtensionField, NoCipher, RequestIdentifier,
 };
+pub use crate::packet::v5::extension_fields::{ReferenceIdRequest, ReferenceIdResponse};
 
 use crate::algorithm::SourceController;
 use crate::config::SourceConfig;
